@@ -150,6 +150,12 @@ def one(rec, hub, seed, tier, i, tmpdir):
         df = out
         kinds.append(fk)
         detail.append((fk, where))
+    if not text and len(df) and rng.random() < 0.45:
+        # the row labels of a frame whose dimensions are all in columns mean nothing (frames glued together with pd.concat keep
+        # repeated labels, filtered frames keep gaps): plain integers outside the range of calendar years
+        n_ = len(df)
+        df = df.copy()
+        df.index = [np.arange(n_) // 2, np.zeros(n_, dtype=np.int64), rng.permutation(n_), np.arange(n_) + 100000, np.arange(n_) % 3][int(rng.integers(0, 5))].astype(np.int64)
     final = read_final(df, spec, info)
     for am in (False, True):
         for ae in (False, True):
